@@ -50,7 +50,7 @@ CUTS_QUICK = ['none', 'midline', 'midchar', 'line', 'all']
 
 
 def runs(tier):
-    return 32 if tier == 'quick' else 1200
+    return 24 if tier == 'quick' else 1000
 
 
 # ----------------------------------------------------------------------------- scenarios
@@ -309,7 +309,10 @@ def effect_desc(e):
 
 def run_cmd(root, ctlp, cmd, fault=None):
     plan = {'tty': dict(cmd['tty'], answers=list(cmd['tty'].get('answers') or [])), 'net': cmd['net'],
-            'today': cmd['today'], 'fault': fault}
+            'today': cmd['today'], 'fault': fault, 'log_reads': True}
+    if fault and fault.get('kind') == 'read-fault':
+        plan['fault'] = None
+        plan['reads'] = {fault['path']: fault['how']}
     return proc.run_cli(root, cmd['argv'], plan, cwd=cmd['cwd'], ctl_parent=ctlp)
 
 
@@ -348,7 +351,7 @@ def run_case(scn, faults, scratch, b0=None, log=None):
         if bad:
             raise proc.HarnessError('effect seam incomplete: unexplained tree changes %r (argv=%r)' % (bad[:5], scn['cmd']['argv']))
         pre = post
-        info['fired'].append(bool(r.fired))
+        info['fired'].append(bool(r.fired) or any(e.get('k') == 'readfault' for e in r.events))
         info['effects'] += len(r.effects)
         log.append(['run', scn['cmd']['argv'], f, r.exit, [effect_desc(e) for e in r.effects], r.fired,
                     util.sha(util.norm_text(r.out, root)), util.sha(util.norm_text(r.err, root)), util.tree_digest(post)])
@@ -376,11 +379,18 @@ def run_case(scn, faults, scratch, b0=None, log=None):
     info['procs'] += 1
     log.append(['observe', o1.get('status'), util.digest(o1)])
     rules_on_disk = not any(r.endswith(('merchant_categories.csv', 'merchants.rules')) for r in lost)
+    def emptied(obs):
+        # every row that the baseline categorised and that this report contains is now Unknown (and there is one)
+        if obs.get('status') != 'ok' or not obs['rows']:
+            return False
+        common = [d for d in obs['rows'] if d in b0['rows'] and b0['rows'][d][1] != 'Unknown']
+        return bool(common) and all(v[1] == 'Unknown' for v in obs['rows'].values())
+
     if some_categorised(b0) and rules_on_disk:
-        if all_unknown(o1):
+        if emptied(o1):
             add('I2', 'after %r the budget classifies every row Unknown while the rules are still on disk (state: %s)'
                 % (faults, info['shape']))
-        elif own is not None and all_unknown(own) and any(faults):
+        elif own is not None and emptied(own) and any(faults):
             add('I2', 'the faulted run itself (%r) reported every row Unknown while the rules are on disk (state: %s)'
                 % (faults, info['shape']))
     if not same_classification(o1, b0):
@@ -505,6 +515,14 @@ def run_one(seed, i, tier, scratch):
         s0d = util.tree_digest(s0)
         plans = [[p] for p in fault_plans(trace, rng, tier)]
         plans.append([None])      # the complete prefix (crash after the last effect)
+        # reads are steps too: every budget file the command read fails to open (EACCES) or fails mid-read (EIO)
+        read_paths = []
+        for e in g.events:
+            if e.get('k') == 'read' and e['path'] not in read_paths and not e['path'].endswith('.html'):
+                read_paths.append(e['path'])
+        for rp_ in read_paths:
+            plans.append([{'kind': 'read-fault', 'path': rp_, 'how': {'kind': 'oserror', 'errno': 'EACCES'}}])
+            plans.append([{'kind': 'read-fault', 'path': rp_, 'how': {'kind': 'eio', 'after': rng.choice([0, 1, 20])}}])
         if tier == 'thorough':
             # depth 2: crash in the first run, crash again somewhere in the recovery run
             singles = [p[0] for p in plans if p[0] and p[0]['kind'] == 'crash' and p[0]['cut'] in ('none', 'half', 'all')]
